@@ -206,6 +206,80 @@ def features(pid, tier, seed, wd, bins, out):
     out["programs"] = len(sets)
 
 # ------------------------------------------------------------------------------------------
+def enum_scope(pid, tier, seed, wd, bins, out):
+    """exhaustive small scopes: from a set of seed shapes (prefixes of generated histories) EVERY
+    call of the structural API with EVERY ordered pair of usable ids (live, or removed and not yet
+    recycled) is executed as its own history (thorough: every sequence of two such calls on the
+    smallest shapes), on implementation and model, with the monitors"""
+    nshapes, plen = (10, 12) if tier == "quick" else (60, 14)
+    base_ops, base_obs = os.path.join(wd, "enum.base.ops"), os.path.join(wd, "enum.base.obs")
+    rc, o = sh([bins["debug"], "gen", "--seed", str(seed * 13 + 3), "--hists", str(nshapes), "--len", str(plen), "--profile", "core",
+                "--max-nodes", "7", "--ops", base_ops, "--obs", base_obs], timeout=300)
+    if rc != 0: raise ToolError("gen failed: " + o[-500:])
+    ops_l = [l.rstrip("\n") for l in open(base_ops) if l.strip() and not l.startswith("#")]
+    obs_l = [l.rstrip("\n") for l in open(base_obs)]
+    hists, cur = [], None
+    for c, ob in zip(ops_l, obs_l):
+        if c.startswith("hist "):
+            cur = dict(ops=[], ids=[], flags="", slots=[], ok=True); hists.append(cur); continue
+        if cur is None: continue
+        if c in ("end",): continue
+        if c.startswith(("clear", "fork", "swap", "serde")): cur["ok"] = False      # keep shapes simple
+        cur["ops"].append(c)
+        if ob.startswith("r id "): cur["ids"].append(ob.split()[2])
+        if ob.startswith("m"): cur["flags"] = ob[2:] if len(ob) > 2 else ""
+        if ob.startswith("a "): cur["slots"] = [p.split(" ") for p in ob.split(" | ")[1:]]
+    KINDS2 = ["app", "pre", "ia", "ib", "capp", "cpre", "cia", "cib"]
+    all_ops, nh, shapes_used = [], 0, 0
+    def usable(h):
+        live, dead = [], []
+        latest = {}
+        for k, i in enumerate(h["ids"]): latest[i.split(":")[0]] = k
+        for k, i in enumerate(h["ids"]):
+            idx = int(i.split(":")[0]) - 1
+            if k >= len(h["flags"]) or idx >= len(h["slots"]): continue
+            if h["flags"][k] == "0": live.append(k)
+            elif h["slots"][idx][0].startswith("-") and latest[i.split(":")[0]] == k: dead.append(k)
+        return live, dead
+    def calls(h):
+        live, dead = usable(h)
+        u = live + dead
+        cs = ["%s %d %d" % (k, a, b) for k in KINDS2 for a in u for b in u]
+        cs += ["%s %d" % (k, a) for k in ("det", "rem", "rst") for a in live]
+        cs += ["appv %d 900" % a for a in u] + ["new 901"]
+        return cs
+    for h in hists:
+        if not h["ok"] or not h["ids"]: continue
+        shapes_used += 1
+        for c in calls(h):
+            all_ops += ["hist %d" % nh] + h["ops"] + [c, "qa", "qr", "qf", "drops", "end"]; nh += 1
+    # depth two on the smallest shapes (thorough)
+    if tier != "quick":
+        small = sorted([h for h in hists if h["ok"] and h["ids"]], key=lambda h: len(h["ids"]))[:4]
+        for h in small:
+            cs = calls(h)
+            if len(cs) > 260: continue
+            for c1 in cs:
+                for c2 in cs:
+                    all_ops += ["hist %d" % nh] + h["ops"] + [c1, "qa", "qr", c2, "qa", "qr", "end"]; nh += 1
+    for build in ("debug", "release"):
+        r = vlib.run_ops_once(pid, wd, bins[build], build, all_ops, "enum-" + build)
+        out["evaluations"] += r["stat"].get(pid, 0)
+        for m in r["mon"]:
+            if m["prop"] == pid:
+                hops = vlib.history_ops(r["ops"], m["hist"])
+                out["violations"].append(_viol(["exhaustive small-scope enumeration (%s build): %s" % (build, m["msg"]), "at command [%s]" % m["cmd"]], hops)); break
+        if r["diffs"] and not out["violations"]:
+            d = r["diffs"][0]
+            out["violations"].append(_viol(["exhaustive small-scope enumeration (%s build): model and implementation differ at [%s]" % (build, d["cmd"]),
+                                            "impl : " + d["impl"][:300], "model: " + d["model"][:300]], vlib.history_ops(r["ops"], d["hist"]), nofail=True))
+        if r["hang"]: out["violations"].append(_viol(["exhaustive enumeration: " + r["hang"]]))
+    out["distinct"] += nh
+    out["summary"]["enum_scope"] = "%d seed shapes; every structural call with every ordered pair of usable ids (%d single-call histories%s), debug+release" % (
+        shapes_used, nh, "" if tier == "quick" else " incl. all two-call sequences on the 4 smallest shapes")
+    out["rule"] += " enum: exhaustive over (8 insert entry points x all ordered pairs of usable ids) + detach/remove/remove_subtree/append_value/new_node, from %d seed shapes." % shapes_used
+
+# ------------------------------------------------------------------------------------------
 def run_extras(pid, tier, seed, wd, bins):
     out = dict(violations=[], evaluations=0, distinct=0, samples=[], summary={}, rule="")
     for e in vlib.PROPS[pid].get("extra", []):
@@ -214,6 +288,7 @@ def run_extras(pid, tier, seed, wd, bins):
         elif e == "selfcheck": selfcheck(pid, tier, seed, wd, bins, out)
         elif e == "determinism": determinism(pid, tier, seed, wd, bins, out)
         elif e == "features": features(pid, tier, seed, wd, bins, out)
+        elif e == "enum": enum_scope(pid, tier, seed, wd, bins, out)
         elif e == "macro":
             import vmacro
             vmacro.run(pid, tier, seed, wd, bins, out)
